@@ -7,6 +7,7 @@ import (
 	"verif/worker"
 
 	_ "verif/harness/c02"
+	_ "verif/harness/c06"
 	_ "verif/harness/c13"
 )
 
